@@ -189,15 +189,26 @@ class Strategy:
                             and is_window_quantity(v.r) and not v.r.is_const():
                         return True
             return False
-        if is_zero_test(p):
+        def tri(q) -> Optional[bool]:
+            """three-valued evaluation of a predicate whose zero-window tests are all false"""
+            if is_zero_test(q):
+                return False
+            if isinstance(q, P) and q.op == '!=' and is_zero_test(P('==', *q.args)):
+                return True
+            if isinstance(q, P) and q.op == 'not':
+                t = tri(q.args[0])
+                return None if t is None else not t
+            if isinstance(q, P) and q.op in ('and', 'or'):
+                ts = [tri(a) for a in q.args]
+                if q.op == 'and':
+                    return False if any(t is False for t in ts) and all(t is not None for t in ts) else (True if all(t is True for t in ts) else None)
+                return True if any(t is True for t in ts) and all(t is not None for t in ts) else (False if all(t is False for t in ts) else None)
+            return None
+        t = tri(p)
+        if t is not None:
             self.decided = getattr(self, 'decided', [])
             self.decided.append(str(p))
-            return False
-        if isinstance(p, P) and p.op == 'and' and all(is_zero_test(q) for q in p.args):
-            self.decided = getattr(self, 'decided', [])
-            self.decided.append(str(p))
-            return False
-        return None
+        return t
 
     # ------------------------------------------------------------------ facts
     def _collect(self):
